@@ -262,7 +262,9 @@ def r_equiv(ctx, a):
                     ctx.oracle_close(f'{nm} (clip): fast(E v) = E(real(v))', of, E(orr, M, L, fs), scale=sc)
                 else:
                     ctx.oracle_close(f'{nm} (no clip): Pi(fast(E v)) = real(v)', Pi(of, M, L), orr, scale=sc)
-        if L >= 3 and ctx.tier == 'thorough' and not lead:
+        if c['spacing'] == 'equiangular_with_poles':
+            ctx.count('composite u,v functions skipped (cos_lat = 0 at the poles: u/cos_lat is infinite in both implementations)')
+        elif L >= 3 and ctx.tier == 'thorough' and not lead:
             # composite functions built on the grid (jitted per grid: thorough only)
             vor = x * np.asarray(gr.mask); div = x2 * np.asarray(gr.mask)
             vor[..., 0, 0] = 0; div[..., 0, 0] = 0
